@@ -29,8 +29,8 @@ type FaultResult struct {
 	Events []FaultEvent
 	Final  string
 	Lines  []string
-	Viol   *Violation   // the divergence that ended the run (state not recoverable by the retry), if any
-	Traces []Violation  // "a failed operation left a trace" findings after which the run went on
+	Viol   *Violation  // the divergence that ended the run (state not recoverable by the retry), if any
+	Traces []Violation // "a failed operation left a trace" findings after which the run went on
 }
 
 // RunFault replays the script with a storage fault in every operation that makes at least
@@ -103,9 +103,17 @@ func RunFault(s *Script, pick func(op int) int, repeat bool, twin *Twin) (*Fault
 			if out.Err != nil {
 				r.WaitLimit = 4 * time.Second
 			}
+			stuckKey := ev.Site + "/" + ev.CallKind.String()
+			if stuckSeen(stuckKey) >= 2 && r.WaitLimit > 8*time.Second {
+				// a background task stuck after a fault at this very call has been waited for in full twice already
+				// (and reported): later plans striking the same call get a shorter patience, so that a tree on which
+				// a task never recovers is reported in minutes, not half an hour (seed C18f)
+				r.WaitLimit = 8 * time.Second
+			}
 			w := r.Exec(i)
 			r.WaitLimit = 30 * time.Second
 			if w.Err != nil {
+				stuckNote(stuckKey)
 				if debug {
 					buf := make([]byte, 1<<20)
 					fmt.Fprintf(os.Stderr, "STUCK\n%s\n", buf[:runtime.Stack(buf, true)])
